@@ -206,7 +206,8 @@ def case_axisymmetric_energy(fam, rep):
         import felupe as fem
         rng = rng_for(run.seed, "C10", "axi-energy", fam, rep)
         mesh, _ = gen.build_mesh(fam, "distorted" if not fam.startswith("tri") else "affine", rng)
-        mesh = mesh.copy(points=mesh.points + np.array([0.0, 1.0 - mesh.points[:, 1].min()]))
+        size = float(np.ptp(mesh.points, axis=0).max())  # the affine class draws bodies from micrometres to hundreds of units
+        mesh = mesh.copy(points=mesh.points + np.array([0.0, 0.7 * size - mesh.points[:, 1].min()]))
         reg = gen.make_region(fam, mesh)
         field = fem.FieldContainer([fem.FieldAxisymmetric(reg, dim=2)])
         v0 = gen.random_displacement(rng, mesh, grad=0.2)
@@ -217,7 +218,7 @@ def case_axisymmetric_energy(fam, rep):
         g = np.zeros(v0.size)
         errs = []
         ng = 3 if fam == "triangleMINI" else None
-        for h in (2e-5, 1e-5):
+        for h in (2e-5 * size, 1e-5 * size):
             for k in range(v0.size):
                 d = np.zeros(v0.size)
                 d[k] = h
